@@ -573,7 +573,7 @@ def check_C06(ctx):
 def check_C08(ctx):
     return run_message_property(ctx, dict(
         theorems=["C08_optional_always", "C08_oneof_always", "C08_oneof_enum_always", "C08_always_emits", "C08_message_presence"],
-        suites=lambda c: [_msg_suite(c, 1500, 60000)] + fresh_suites(c, [("msg", ["msg", c.seed + 14, _n(c, 1500, 30000), "presence.proto:"])]),
+        suites=lambda c: [_msg_suite(c, 1500, 60000)] + fresh_suites(c, [("msg", ["msg", c.seed + 14, _n(c, 1000, 20000), "presence.proto:"]), ("msg", ["msg", c.seed + 15, _n(c, 1200, 30000), ".proto:"])]),
         prop={"msg": lambda r: r["impl"] != "PANIC" and r["flags"].get("c08o") == "ok" and r["flags"].get("c08r") == "ok"},
         tie={"msg": tie_bytes}, spec={"msg": spec_msg}, nontrivial=nontrivial_any, shrink_flag="c08",
         rule=MSG_RULE + "; projection: presence skeleton (nil-ness, selected oneof member, list lengths) after round trip and as seen by the reference (Has())"))
